@@ -26,6 +26,19 @@ def beforeStatus : List String → List String
 
 def codeOfTok (t : String) : Option Nat := (((t.drop 1).toString.splitOn ":").head?).bind String.toNat?
 
+/-- walk headers only (an oversized declared length need not be followed by a payload): the
+frames before the first oversized / incomplete one, and whether one is oversized -/
+def walk (limit : Nat) (fuel : Nat) (bs : Bytes) : List (UInt8 × Bytes) × Bool :=
+  match fuel, bs with
+  | fuel + 1, f :: a :: b :: cc :: d :: rest =>
+    let len := Spec.Framing.be32 a b cc d
+    if len > limit then ([], true)
+    else if len ≤ rest.length then
+      let (fs, o) := walk limit fuel (rest.drop len)
+      ((f, rest.take len) :: fs, o)
+    else ([], false)
+  | _, _ => ([], false)
+
 /-- C06 verdict.  enc: every message before the first oversized one / source error is delivered,
 in order, ahead of the status, whose code is OUT_OF_RANGE for an oversized message; nothing of
 the oversized message is sent.  dec: frames are accepted iff payload length ≤ limit; the first
@@ -35,7 +48,7 @@ def handle (case obs : List String) : String × String :=
   | none => bad
   | some m =>
     let v := match case with
-      | "enc" :: _ =>
+      | "penc" :: _ | "enc" :: _ =>
         match parseEncCase case with
         | none => "fail:bad-case"
         | some c =>
@@ -51,24 +64,14 @@ def handle (case obs : List String) : String × String :=
                    ("status-code", (st.bind codeOfTok) == expCode),
                    ("nothing-sent-after-status", e.isNone || c.cfg.server == false ||
                        (obsData obs).flatten == expected)]
-      | "dec" :: _ =>
+      | "pdec" :: _ | "dec" :: _ =>
         match parseDecCase case with
         | none => "fail:bad-case"
         | some c =>
           -- walk headers only (an oversized declared length need not be followed by a payload):
           -- the frames before the first oversized / incomplete one, and whether one is oversized
           let limit := c.cfg.maxSize.getD (4 * 1024 * 1024)
-          let rec walk (fuel : Nat) (bs : Bytes) : List (UInt8 × Bytes) × Bool :=
-            match fuel, bs with
-            | fuel + 1, f :: a :: b :: cc :: d :: rest =>
-              let len := Spec.Framing.be32 a b cc d
-              if len > limit then ([], true)
-              else if len ≤ rest.length then
-                let (fs, o) := walk fuel (rest.drop len)
-                ((f, rest.take len) :: fs, o)
-              else ([], false)
-            | _, _ => ([], false)
-          let (frs, over) := walk ((dataOf c.evs).length + 1) (dataOf c.evs)
+          let (frs, over) := walk limit ((dataOf c.evs).length + 1) (dataOf c.evs)
           let within := frs.filterMap (payloadMsg c.tab)
           let allValid := within.length == frs.length
               && frs.all (fun fp => fp.1 == 0 || c.cfg.enc.isSome)
